@@ -104,6 +104,11 @@ class ZorgFileCompiler(ZorgFileListener):
         get_datetime = partial(
             dt.datetime.strptime, ctx.DATE().getText(), "%Y-%m-%d"
         )
+        try:
+            get_datetime()
+        except ValueError:
+            # An impossible date (e.g. 2024-02-30) is just a word.
+            return
         if (
             self._s.in_note
             and self._s.ids_in_note == 1
@@ -192,13 +197,8 @@ class ZorgFileCompiler(ZorgFileListener):
     def enterInline_prop(
         self, ctx: ZorgFileParser.Inline_propContext
     ) -> None:  # noqa: D102
-        words = ctx.getText().split(" ")
-        if len(words) == 1:
-            key, value = words[0][1:-1].split("::")
-        else:
-            key = words.pop(0)[1:-2]
-            value = " ".join(words)[:-1]
-        self._add_prop(key, value)
+        key, value = ctx.getText()[1:-1].split("::", maxsplit=1)
+        self._add_prop(key, value.strip())
 
     def enterItem(self, ctx: ZorgFileParser.ItemContext) -> None:  # noqa: D102
         del ctx
